@@ -3,14 +3,117 @@
 //! seeded workload through every configuration each build offers; this module compares the
 //! per-(case, configuration) SHA-256 digests. Files: /verif/logs/C07-<group>-<build>.txt
 
-use crate::util::{simple_failure, Failure, Report, Stats, SubOutcome, VERIF_DIR};
+use crate::codec::{block_cfg, make_data, DataClass};
+use crate::reference as rf;
+use crate::util::{catch, run_items, simple_failure, Failure, Report, SplitMix, Stats, SubOutcome, Tier, VERIF_DIR};
+use raptorq::{EncodingPacket, SourceBlockEncoder, SourceBlockEncodingPlan};
 use crate::Ctx;
 use serde_json::{json, Value};
 use std::collections::BTreeMap;
 use std::time::Instant;
 
+
+/// One block size through every construction this build offers; all must emit the same packets.
+#[derive(Debug, Clone)]
+pub struct Item {
+    k: u32,
+    t: usize,
+    seed: u64,
+}
+
+fn packets_of(e: &SourceBlockEncoder, k: u32) -> Vec<EncodingPacket> {
+    let mut v = e.source_packets();
+    v.extend(e.repair_packets(0, 4));
+    v.extend(e.repair_packets(5000, 1));
+    v.extend(e.repair_packets((1 << 24) - 1 - k, 1));
+    v
+}
+
+fn check_item(it: &Item, st: &mut Stats) -> Result<(), String> {
+    let k = it.k;
+    let kp = rf::params(k).kp;
+    let data = make_data(DataClass::Random, it.seed, k as usize * it.t);
+    let cfg = block_cfg(k as usize, it.t);
+    let mut built: Vec<(String, Vec<EncodingPacket>)> = vec![];
+    let mut add = |name: &str, f: &mut dyn FnMut() -> Option<SourceBlockEncoder>| -> Result<(), String> {
+        let e = catch(|| f()).map_err(|p| format!("K={k} (K'={kp}) construction '{name}' panicked: {p}"))?.ok_or_else(|| format!("K={k} (K'={kp}) construction '{name}' failed (singular)"))?;
+        built.push((name.to_string(), packets_of(&e, k)));
+        Ok(())
+    };
+    // production entry points
+    add("unplanned, default threshold", &mut || SourceBlockEncoder::verif_new_unplanned(0, &cfg, &data, 250))?;
+    add("with_encoding_plan(generate(K))", &mut || Some(SourceBlockEncoder::with_encoding_plan(0, &cfg, &data, &SourceBlockEncodingPlan::generate(k as u16))))?;
+    if kp <= 3000 {
+        // (the process-wide cache keeps up to 64 plans alive: only moderate sizes go through it)
+        add("new (plan cache, miss or hit)", &mut || Some(SourceBlockEncoder::new(0, &cfg, &data)))?;
+        add("new (plan cache, second call)", &mut || Some(SourceBlockEncoder::new(0, &cfg, &data)))?;
+    }
+    if kp <= 1200 {
+        add("unplanned, dense", &mut || SourceBlockEncoder::verif_new_unplanned(0, &cfg, &data, u32::MAX))?;
+        add("unplanned, sparse", &mut || SourceBlockEncoder::verif_new_unplanned(0, &cfg, &data, 0))?;
+        add("plan generated on the dense back-end", &mut || Some(SourceBlockEncoder::with_encoding_plan(0, &cfg, &data, &SourceBlockEncodingPlan::verif_generate(k as u16, u32::MAX))))?;
+        add("plan generated on the sparse back-end", &mut || Some(SourceBlockEncoder::with_encoding_plan(0, &cfg, &data, &SourceBlockEncodingPlan::verif_generate(k as u16, 0))))?;
+    }
+    for (name, pk) in &built[1..] {
+        st.eval();
+        if pk != &built[0].1 {
+            let i = pk.iter().zip(&built[0].1).position(|(a, b)| a != b).unwrap_or(0);
+            return Err(format!(
+                "K={k} (K'={kp}) T={}: construction '{name}' and '{}' emit different packets (first difference: packet {i}, ESI {})",
+                it.t,
+                built[0].0,
+                built[0].1[i].payload_id().encoding_symbol_id()
+            ));
+        }
+    }
+    st.nt(crate::util::fnv_u64s(&[k as u64, it.t as u64]));
+    st.class_n("constructions compared", built.len() as u64);
+    st.class_if(k < kp, "K < K' (padding)");
+    st.sample(|| json!({"K": k, "K'": kp, "T": it.t, "constructions": built.iter().map(|b| b.0.clone()).collect::<Vec<_>>()}));
+    Ok(())
+}
+
+fn constructions(ctx: &Ctx) -> SubOutcome {
+    let mut rng = SplitMix::new(crate::util::mix(ctx.seed, 707));
+    let mut items = vec![];
+    let mut kps: Vec<u32> = rf::tables().t2.iter().map(|r| r.0).collect();
+    kps.reverse();
+    let phase = (crate::util::mix(ctx.seed, 7) % 4) as usize;
+    for (i, kp) in kps.into_iter().enumerate() {
+        items.push(Item { k: kp, t: 2, seed: rng.next_u64() });
+        if ctx.tier == Tier::Thorough || kp <= 2000 || i % 4 == phase {
+            // a K strictly inside the row (padding symbols present)
+            let lo = rf::params(kp).kp; // = kp
+            let _ = lo;
+            let below = if kp > 10 { kp - 1 - (rng.below(3) as u32) } else { kp };
+            if rf::params(below).kp == kp && below != kp {
+                items.push(Item { k: below, t: 1 + rng.below(4) as usize, seed: rng.next_u64() });
+            }
+        }
+    }
+    let mut out = run_items(&items, |it, st| {
+        let r = match catch(|| check_item(it, st)) {
+            Ok(r) => r,
+            Err(p) => Err(format!("K={}: panic: {p}", it.k)),
+        };
+        r.map_err(|m| {
+            let kind = if m.contains("panicked") || m.contains("panic:") {
+                "panic"
+            } else if m.contains("singular") {
+                "singular"
+            } else {
+                "differ"
+            };
+            simple_failure("constructions", m, format!("constructions:{kind}"), json!({"k": it.k, "t": it.t, "seed": it.seed}))
+        })
+    });
+    out.failures.sort_by_key(|f| f.case["k"].as_u64().unwrap_or(0));
+    out.failures.truncate(1);
+    out
+}
+
 pub fn run(ctx: &Ctx, rep: &mut Report) {
-    rep.rule = "a seeded workload of encode/decode cases: three quarters single-block (K weighted over 1..=60 / ..=200 / 201..=300 (group A) or ..=1000 (group B, release builds only), T in {1, 1..8, 63..66, 1..130, 16, 40..99}, 4-15 repair ESIs from near/uniform/far classes, an erasure pattern with overhead -1..2 so that undecodable sets occur), one quarter object-level (Al in {1,2,4,8}, T <= 40, Z <= 4, N <= 3, F not a multiple of T, 4..9 repair packets per block, shuffled delivery with up to 5 losses, through Encoder/Decoder), is generated once per seed, together with 4 000 default derivations `with_defaults(F, P')` (F log-uniform below 2^40, P' over 1..=65535) and six objects of 5 kB..3 MB encoded through `Encoder::with_defaults` / `EncoderBuilder` (the configuration a build derives on its own is an output too), and run in every configuration: builds {release, chk = release + debug assertions + overflow checks} x {std, no_std}; in the release-std build additionally every forced kernel {default, AVX-512, AVX2, SSSE3, portable} x sparse threshold {0, 250, infinity} on encoder and decoder x plan mode {new (twice: second served by the cache), with_encoding_plan, unplanned}; in the other builds default kernel x 3 thresholds x {new, unplanned}. Oracle (differential): SHA-256 over (all source packets, the repair packets, decode outcome tag, decoded bytes) must be identical for every configuration of every build. Non-trivial = a case decoded through the solver (a source symbol missing); distinct = (case, build, configuration) triples.".into();
+    rep.rule = "a seeded workload of encode/decode cases: three quarters single-block (K weighted over 1..=60 / ..=200 / 201..=300 (group A) or ..=1000 (group B, release builds only), T in {1, 1..8, 63..66, 1..130, 16, 40..99}, 4-15 repair ESIs from near/uniform/far classes, an erasure pattern with overhead -1..2 so that undecodable sets occur), one quarter object-level (Al in {1,2,4,8}, T <= 40, Z <= 4, N <= 3, F not a multiple of T, 4..9 repair packets per block, shuffled delivery with up to 5 losses, through Encoder/Decoder), is generated once per seed, together with 4 000 default derivations `with_defaults(F, P')` (F log-uniform below 2^40, P' over 1..=65535) and six objects of 5 kB..3 MB encoded through `Encoder::with_defaults` / `EncoderBuilder` (the configuration a build derives on its own is an output too), and run in every configuration: builds {release, chk = release + debug assertions + overflow checks} x {std, no_std}; in the release-std build additionally every forced kernel {default, AVX-512, AVX2, SSSE3, portable} x sparse threshold {0, 250, infinity} on encoder and decoder x plan mode {new (twice: second served by the cache), with_encoding_plan, unplanned}; in the other builds default kernel x 3 thresholds x {new, unplanned}. Oracle (differential): SHA-256 over (all source packets, the repair packets, decode outcome tag, decoded bytes) must be identical for every configuration of every build. In addition, inside the release-std harness, every one of the 477 block sizes K' of Table 2 (and a K just below it in the same row: all K' <= 2000, every 4th above in the quick tier, all in the thorough tier) is built through every construction - unplanned at the default threshold, with_encoding_plan(generate(K)), new() twice (K' <= 3000), unplanned and planned on the forced dense and sparse back-ends (K' <= 1200) - and all must emit identical source packets and identical repair packets (ESI K..K+3, K+5000, 2^24-1). Non-trivial = a case decoded through the solver (a source symbol missing) or a block size compared across constructions; distinct = (case, build, configuration) triples / (K, T) pairs.".into();
     rep.assumptions.push("NEON kernels cannot execute on this x86-64 host; 32-bit x86 builds are not installed; no_std builds compile only the portable kernels (a second, hook-free route to them)".into());
     let started = Instant::now();
     let dir = format!("{VERIF_DIR}/logs");
@@ -86,8 +189,12 @@ pub fn run(ctx: &Ctx, rep: &mut Report) {
     }
     failures.truncate(1);
     rep.absorb("digests", SubOutcome { stats: st, failures, wall_s: started.elapsed().as_secs_f64() });
+    rep.absorb("constructions", constructions(ctx));
 }
 
-pub fn replay(_sub: &str, _case: &Value) -> Result<(), String> {
+pub fn replay(sub: &str, case: &Value) -> Result<(), String> {
+    if sub == "constructions" {
+        return check_item(&Item { k: case["k"].as_u64().unwrap() as u32, t: case["t"].as_u64().unwrap() as usize, seed: case["seed"].as_u64().unwrap() }, &mut Stats::new());
+    }
     Err("C07 replays are executed by the driver: ./check C07 --replay <file> re-runs the recorded seed's workload in all builds".into())
 }
